@@ -50,6 +50,16 @@ CHECKS = {
              props=['C08', 'C01', 'C02', 'C09', 'C07'],
              batches=[dict(profile='hist', flavour='plain', quick=25000, thorough=1500000), dict(profile='hist', flavour='asan', quick=2500, thorough=100000)],
              must_probe=['refactorizations', 'factored_calls', 'factor_reuse_solves_checked', 'usepr_all_old_pivots_pass', 'usepr_old_pivot_fails', 'user_workspace_calls']),
+ 'C14': dict(seed_offset=14, level='fault_enumeration',
+             rule=("enumerating profile: configuration = seed div 128 (pattern, values, precision, driver, nprocs 1..4, tunables); item = seed mod 128: 0 fault-free baseline (counts the K allocator "
+                   "requests of the driver call), 1 workspace query, 2 sufficient caller workspace, then for k = 1..48 (and a seeded sample of larger k) 'fail request k and all later ones' and 'fail only request k', "
+                   "then caller-workspace sizes at cumulative boundaries of a sufficient run +- one word (always including the peak) and seeded sizes; thorough tier: 1024 items per configuration, i.e. every k. "
+                   "A case is non-trivial if it has >= 2 worker threads, >= 2 columns and a scheduling decision; distinct = distinct (H_sched, H_obs)"),
+             props=['C14', 'C01', 'C02', 'C07', 'C09', 'C05', 'C04', 'C12', 'C13'],
+             batches=[dict(profile='alloc', flavour='plain', quick=128 * 60, thorough=1024 * 400, S=128, S_thorough=1024), dict(profile='alloc', flavour='asan', quick=128 * 12, thorough=1024 * 40, S=128, S_thorough=1024)],
+             must_probe=['alloc_mode_3', 'alloc_mode_4', 'alloc_mode_5', 'workspace_queries', 'abort_under_fault', 'returned_info_gt_n', 'workspace_size_sufficient_after_all', 'user_workspace_calls'],
+             assumptions=["a call that returns info = 0 after an injected failure is accepted only if its result passes the full oracles (counted as succeeded_despite_failed_request)",
+                          "allocator requests are counted inside the driver call only (orderings computed by get_perm_c before the call are outside the armed window)"]),
  'C09': dict(seed_offset=9, level='exploration', rule=RULE_A, props=['C09'],
              batches=[dict(profile='strf', flavour='plain', quick=60000, thorough=3000000), dict(profile='ssv', flavour='plain', quick=20000, thorough=1000000)],
              must_probe=['factorizations_checked', 'numbering_ne_storage_order']),
